@@ -1022,12 +1022,15 @@ class PrintWorld(Renderer):
             ok_shape = isinstance(ret, tuple) and len(ret) == 2 and ret[1] is None and \
                 isinstance(ret[0], list)
             if not ok_shape:
+                self.fail("C06", "flush_end", "print ended during an episode: script hook returned %r, so neither "
+                          "the deferred commands nor the exit script reach the printer" % (ret,))
                 self.fail("C15", "prefix", "print ended while excluding: script hook returned %r instead of "
                           "(prefix, None)" % (ret,))
                 return ret
             prefix = list(ret[0])
             for s_ in prefix:
                 self._check_c07(s_)
+            self._check_exit_sequence(prefix, flush, "C06", "flush_end", "afterPrintDone")
             self._check_exit_sequence(prefix, flush, "C15", "flush", "afterPrintDone")
             Fc = copy.deepcopy(self.F)
             for s_ in prefix:
